@@ -37,9 +37,9 @@ def gen_constants(ctx, emit):
     else:
         # vectors for the real code: all records of the stride(s), truncations/corruptions of a covering part
         c.update({"Rots": tla_set([stride] if quick else [stride, (stride % 5) + 1]), "NTyped": 400 if quick else 4000,
-                  "CutFormats": tla_set([74, 127, 200] if quick else FORMATS),
-                  "CutPays": tla_set([1] if quick else [1, 2, 3]),
-                  "CutFlags": tla_set([1 + ctx.seed % 2] if quick else [0, 3, 1 + ctx.seed % 2])})
+                  "CutFormats": tla_set([74, 127, 200] if quick else [0, 1, 74, 127, 128, 255]),
+                  "CutPays": tla_set([1] if quick else [1, 3]),
+                  "CutFlags": tla_set([1 + ctx.seed % 2] if quick else [3, 1 + ctx.seed % 2])})
     return c
 
 
@@ -49,6 +49,7 @@ INVARIANTS = ["Total", "Inside", "RoundTrip", "TruncLaw", "CorruptLaw", "KeyLaw"
 def directives(ctx, vectors):
     quick = ctx.tier == "quick"
     ds = list(vectors)
+    ds.append({"fam": "misc"})
     n = 64 if quick else 640
     for k in range(n):
         s = ctx.seed * 100003 + k
@@ -74,7 +75,10 @@ def sig(ev):
         fmt = "fmt>=128" if ev.get("format", 0) >= 128 else "fmt<128"
         return "rt:%s:%s:%s%s" % (kind, life, fmt, where)
     cls = ev.get("cls", "?")
-    return "parse:%s:%s%s" % (cls, "ok" if ev.get("ok") else "err", where)
+    if ev["e"] == "misc":
+        return "misc:%s%s" % (cls, where)
+    res = ("ok:fmt>=128" if ev.get("format", 0) >= 128 else "ok:fmt<128") if ev.get("ok") else "err"
+    return "parse:%s:%s%s" % (cls, res, where)
 
 
 def evaluate(ctx, ds):
@@ -96,8 +100,8 @@ def evaluate(ctx, ds):
 
 
 def judge(ctx, events):
-    bad = vlib.validate_stateless(ctx, "RecordFormatTrace", "RecordFormatTrace.cfg", events, chunks=vlib.NCPU,
-                                  timeout=1500)
+    bad = vlib.validate_stateless(ctx, "RecordFormatTrace", "RecordFormatTrace.cfg", events,
+                                  chunks=max(vlib.NCPU, (len(events) + 11999) // 12000), timeout=1500)
     for ev in bad:
         ctx.violation(sig(ev), "case rejected by the record-format model: %s" % json.dumps(ev)[:1500], {"event": ev})
     return len(events) - len(bad)
@@ -106,6 +110,8 @@ def judge(ctx, events):
 def nontrivial(ev):
     if ev["e"] == "rt":
         return True
+    if ev["e"] != "parse":
+        return False
     b = ev["b"]
     return len(b) >= 2 and b[0] == 1      # passes the version stage: the block reader is exercised
 
